@@ -4,10 +4,10 @@ import os
 from . import runprop
 
 
-def apiload(ctx, scenarios, workers, race, status=True):
+def apiload(ctx, scenarios, workers, race, status=True, runs=2):
     found = False
     for sc in scenarios:
-        args = ["-workers", str(workers)]
+        args = ["-workers", str(workers), "-runs", str(runs)]
         if race:
             args += ["-racebin", runprop.binary(ctx, race=True)]
         recs, summary = runprop.run(ctx, "apiload", "scen:" + sc, ctx.seed, args, timeout=2400)
